@@ -257,9 +257,11 @@ class MachineInterp(flow.Interp):
                 self.viol('C02.d', 'enter/reenter runs with a control that has no current transition', call, st)
                 return
             d = st.get(cur + ('destination',))
-            if d == prong:
-                return
-            if mode == 'initial' and st.cconst(d) == 255 and st.cconst(prong) == 0:
+            if st.cconst(d) == 255:
+                # nothing has been accepted: only activation may enter anything, and then it is the initial state
+                if mode == 'initial' and st.cconst(prong) == 0:
+                    return
+            elif d == prong:
                 return
             self.viol('C02.d', 'the state entered is not the destination of the last transition that survived its guards', call, st,
                       {'entered': self.describe(st, prong), 'accepted.destination': self.describe(st, d)})
